@@ -1005,7 +1005,8 @@ static void _handle_open_compress(xmpp_conn_t *conn)
     /* setup stream:features handlers */
     handler_add(conn, _handle_features_compress, XMPP_NS_STREAMS, "features",
                 NULL, NULL);
-    handler_add_timed(conn, _handle_missing_features, FEATURES_TIMEOUT, NULL);
+    handler_add_timed(conn, _handle_missing_features_sasl, FEATURES_TIMEOUT,
+                      NULL);
 }
 
 static int _do_bind(xmpp_conn_t *conn, xmpp_stanza_t *bind)
@@ -1100,7 +1101,7 @@ static int _handle_features_compress(xmpp_conn_t *conn,
     xmpp_stanza_t *child;
 
     /* remove missing features handler */
-    xmpp_timed_handler_delete(conn, _handle_missing_features);
+    xmpp_timed_handler_delete(conn, _handle_missing_features_sasl);
 
     /* check for compression */
     child = xmpp_stanza_get_child_by_name_and_ns(stanza, "compression",
